@@ -14,7 +14,8 @@ From SqlModel Require Import Base PyStr Re Lexer SplitDefs Splitter Node Passes 
 From SqlModel Require Import Skeleton SkeletonFacts Skel SkelFacts WsRun.
 From SqlModel.Gen Require Import CaseTabs SplitTab Rules.
 From SqlModel.Inst Require Import Cur CaseInv WsRunInst C11Wit C11Case C11Multi C11Run.
-From SqlModel Require Import RunInvDefs RunInv RunLex.
+From SqlModel Require Import RunInvDefs RunInv RunLex RunLexAll LexFacts.
+From SqlModel.Inst Require C11RunAll.
 
 (* ---- lexer ---------------------------------------------------------------------------------- *)
 (* letter case of ASCII letters: same token types and boundaries (keywords, and everything else) *)
@@ -93,6 +94,31 @@ Print Assumptions C11_run_sim.
 Theorem C11_run_table :
   forallb (fun ch => negb (inS RSp ch) && forallb (rule_ok ch) sql_regex) all_letters = true.
 Proof. exact C11Run.C11_run_table. Qed.
+
+(* WHOLE TEXTS.  For texts over white space and the characters at which every rule of the table is in the class, cannot
+   start, or must consume a quote (C11RunAll.okc_ascii: every ASCII character except the two quotes, the backtick,
+   hash, dollar, minus, slash and the opening bracket): two texts that are equal after collapsing every white-space
+   run to one marker (sq) are lexed into the same significant tokens -- same types, values equal up to white space
+   (Lrel) -- separated by white-space tokens at the same places. *)
+Theorem C11_lex_run_all : forall t t' l l',
+  sq RSp false t = sq RSp false t' -> C11RunAll.oktextb t = true -> C11RunAll.oktextb t' = true ->
+  cur_lex t = Ok l -> cur_lex t' = Ok l' -> C11RunAll.Lrel l l'.
+Proof. exact C11RunAll.C11_lex_run_all. Qed.
+Print Assumptions C11_lex_run_all.
+
+Theorem C11_lex_run_types : forall t t' l l',
+  sq RSp false t = sq RSp false t' -> C11RunAll.oktextb t = true -> C11RunAll.oktextb t' = true ->
+  cur_lex t = Ok l -> cur_lex t' = Ok l' -> C11RunAll.sigtypes l = C11RunAll.sigtypes l'.
+Proof. exact C11RunAll.C11_lex_run_types. Qed.
+Print Assumptions C11_lex_run_types.
+
+(* the generic statement: any rule table that meets table_ok *)
+Theorem C11_lex_all_generic : forall lower upper rules kws S oktext, table_ok lower rules kws S oktext ->
+  forall n t t' p p' l l', length t <= n ->
+  LexSpec lower upper rules kws p t l -> LexSpec lower upper rules kws p' t' l' ->
+  srel S (mkSt p t) (mkSt p' t') -> oktext t -> oktext t' ->
+  if snext_t S t then RunLexAll.Lrel S l l' else RunLexAll.Lrel0 S l l'.
+Proof. exact RunLexAll.lex_all. Qed.
 
 Theorem C11_RS_refl : forall S t, RS S t t.
 Proof. exact RunLex.RS_refl. Qed.
